@@ -169,4 +169,84 @@ mod verif_c06 {
             }
         }
     }
+
+    // ---- modular check of the two thin wrappers for LONG frames: the callee cobs::decode_in_place[_report] is replaced by its
+    // contract (derived from cobs 0.2.3 dec.rs `decode_raw!`: on Ok, src_used == position of the first zero byte or the buffer
+    // length, dst_used <= src_used, only buff[..dst_used] is written; or Err(())) and the wrappers' own arithmetic - which bytes
+    // are plain-decoded, where the remainder starts, the error kind - is checked for buffers up to 300 bytes.
+    static mut STUB_ERR: bool = false;
+    static mut STUB_DST: usize = 0;
+    fn first_zero(b: &[u8]) -> usize {
+        let mut i = 0;
+        while i < b.len() {
+            if b[i] == 0 { return i; }
+            i += 1;
+        }
+        b.len()
+    }
+    fn report_model(buff: &mut [u8]) -> core::result::Result<cobs::DecodeReport, ()> {
+        if unsafe { STUB_ERR } { return Err(()); }
+        Ok(cobs::DecodeReport { src_used: first_zero(buff), dst_used: unsafe { STUB_DST } })
+    }
+    fn in_place_model(buff: &mut [u8]) -> core::result::Result<usize, ()> {
+        if unsafe { STUB_ERR } { return Err(()); }
+        Ok(unsafe { STUB_DST })
+    }
+    const LONG: usize = 300;
+
+    #[kani::proof]
+    #[kani::stub(cobs::decode_in_place_report, report_model)]
+    #[kani::unwind(302)]
+    fn take_wrapper_long() {
+        let orig: [u8; LONG] = kani::any();
+        let l: usize = kani::any();
+        kani::assume(l <= LONG);
+        let fz = first_zero(&orig[..l]);
+        let err: bool = kani::any();
+        let dst: usize = kani::any();
+        kani::assume(dst <= fz);
+        unsafe { STUB_ERR = err; STUB_DST = dst; }
+        let mut buf = orig;
+        let base = buf.as_ptr() as usize;
+        let got = take_from_bytes_cobs::<u8>(&mut buf[..l]);
+        if err {
+            assert!(matches!(got, Err(Error::DeserializeBadEncoding)), "SPEC: ill-formed COBS must be rejected with DeserializeBadEncoding");
+        } else {
+            let plain = from_bytes::<u8>(&orig[..dst]);
+            match (got, plain) {
+                (Ok((g, rest)), Ok(p)) => {
+                    assert!(g == p, "SPEC: value differs from plain decoding of the decoded payload");
+                    let after = if fz < l { fz + 1 } else { l };
+                    assert!(rest.as_ptr() as usize == base + after, "SPEC: remainder must begin immediately after the frame's sentinel");
+                    assert!(rest.len() == l - after, "SPEC: remainder must extend to the end of the buffer");
+                }
+                (Err(e), Err(f)) => assert!(err_code(&e) == err_code(&f)),
+                _ => panic!("SPEC: accept/reject differs from plain decoding of the decoded payload"),
+            }
+        }
+    }
+
+    #[kani::proof]
+    #[kani::stub(cobs::decode_in_place, in_place_model)]
+    #[kani::unwind(302)]
+    fn decode_wrapper_long() {
+        let orig: [u8; LONG] = kani::any();
+        let l: usize = kani::any();
+        kani::assume(l <= LONG);
+        let err: bool = kani::any();
+        let dst: usize = kani::any();
+        kani::assume(dst <= l);
+        unsafe { STUB_ERR = err; STUB_DST = dst; }
+        let mut buf = orig;
+        let got = from_bytes_cobs::<u8>(&mut buf[..l]);
+        if err {
+            assert!(matches!(got, Err(Error::DeserializeBadEncoding)), "SPEC: ill-formed COBS must be rejected with DeserializeBadEncoding");
+        } else {
+            match (got, from_bytes::<u8>(&orig[..dst])) {
+                (Ok(g), Ok(p)) => assert!(g == p, "SPEC: value differs from plain decoding of the decoded payload"),
+                (Err(e), Err(f)) => assert!(err_code(&e) == err_code(&f)),
+                _ => panic!("SPEC: accept/reject differs from plain decoding of the decoded payload"),
+            }
+        }
+    }
 }
